@@ -688,8 +688,7 @@ class Shelxfile():
                 self._append_card(self.restraints, EXYZ(self, spline), line_num)
             elif word == 'FRAG':
                 # FRAG code[17] a[1] b[1] c[1] α[90] β[90] γ[90]
-                if len(spline) == 8:
-                    self.frag = self._assign_card(FRAG(self, spline), line_num)
+                self.frag = self._assign_card(FRAG(self, spline), line_num)
             elif word == 'FEND':
                 # FEND (must follow FRAG)
                 if not self.frag:
